@@ -244,9 +244,10 @@ def candidate_schedules(traces, shared):
                     if x in last:
                         # cut between the previous access to x and this one
                         held = set(traces[a][i][3])
-                        need = set(ev[2] for ev in traces[b] if ev[1] == 'acq')
-                        if not (held & need):
-                            yield [a] * i + [b] * n[b] + [a] * (n[a] - i)
+                        # the other thread runs until it would block on a lock this thread holds at the cut
+                        k = next((j for j, ev in enumerate(traces[b]) if ev[1] == 'acq' and ev[2] in held), n[b])
+                        if any(ev[1] == 'call' and ev[2][0] in shared for ev in traces[b][:k]):
+                            yield [a] * i + [b] * k + [a] * (n[a] - i) + [b] * (n[b] - k)
                     last[x] = i
 
 
